@@ -562,7 +562,7 @@ fn walk_case(ctx: &Ctx, idx: u64, sel: &ChildSel, maxdim: u64, st: &mut Stats) {
 }
 
 fn part_walks(ctx: &Ctx, sel: &ChildSel, glob: &Mutex<Stats>, n_override: Option<u64>) {
-    let n = n_override.unwrap_or(if ctx.flag("lite") { 2000 } else { ctx.pick(200_000, 4_000_000) });
+    let n = n_override.unwrap_or(if ctx.flag("lite") { 2000 } else { ctx.pick(200_000, 16_000_000) });
     let work = |idx: u64, st: &mut Stats| {
         let case = || J::obj().set("kind", "walk").set("index", idx).set("seed", ctx.seed).set("maxdim", 12);
         run_case("C07", "walks", &|| format!("walk #{idx}"), &case, st, |st| walk_case(ctx, idx, sel, 12, st));
@@ -634,7 +634,7 @@ fn float_case(ctx: &Ctx, idx: u64, sel: &ChildSel, npx: usize, st: &mut Stats) {
 }
 
 fn part_floats(ctx: &Ctx, sel: &ChildSel, glob: &Mutex<Stats>, n_override: Option<(u64, usize)>) {
-    let (chunks, npx) = n_override.unwrap_or(if ctx.flag("lite") { (4, 512) } else if sel.child { (ctx.pick(16, 256), 4096) } else { (ctx.pick(64, 4096), 16_384) });
+    let (chunks, npx) = n_override.unwrap_or(if ctx.flag("lite") { (4, 512) } else if sel.child { (ctx.pick(16, 256), 4096) } else { (ctx.pick(64, 16_384), 16_384) });
     let n = chunks * FLOAT_STAGES;
     let work = |idx: u64, st: &mut Stats| {
         let case = || J::obj().set("kind", "floats").set("index", idx).set("npx", npx).set("seed", ctx.seed);
@@ -1019,7 +1019,7 @@ pub fn c13(ctx: &Ctx) {
         if lite && ci % 7 != (ctx.seed % 7) {
             return;
         }
-        let cfgt = cfgs[ci as usize];
+        let cfgt = cfgs[(ci % cfgs.len() as u64) as usize];
         sel.announce(ci, &format!("{cfgt:?}"));
         let mut st = Stats::default();
         let before = vh::thread_violations();
@@ -1045,9 +1045,12 @@ pub fn c13(ctx: &Ctx) {
             ev::violation(format!("C13|hook|{site}"), format!("unsafe precondition false at {site} for config {cfgt:?}"), J::obj().set("kind", "c13").set("config_index", ci).set("seed", ctx.seed).set("tier", if ctx.tier == Tier::Quick { "quick" } else { "thorough" }).set("lite", ctx.flag("lite")));
         }
     };
+    // thorough: every config several times with fresh hostile pixels (the case index seeds the generator)
+    let rounds: u64 = if lite { 1 } else { ctx.pick(1, 12) };
+    let ncases = cfgs.len() as u64 * rounds;
     if sel.child {
         let mut acc = (Stats::default(), 0, 0, 0);
-        for ci in 0..cfgs.len() as u64 {
+        for ci in 0..ncases {
             if sel.wants(ci) {
                 work(ci, &mut acc);
             }
@@ -1058,7 +1061,7 @@ pub fn c13(ctx: &Ctx) {
         g.2 += acc.2;
         g.3 += acc.3;
     } else {
-        ev::par_ranges("C13", cfgs.len() as u64, 8, |_w, a, b| {
+        ev::par_ranges("C13", ncases, 8, |_w, a, b| {
             let mut acc = (Stats::default(), 0, 0, 0);
             for ci in a..b {
                 work(ci, &mut acc);
@@ -1128,7 +1131,7 @@ pub fn replay(mon: &str, case: &J) -> bool {
         "c13" => {
             let Some(ci) = case.get("config_index").and_then(J::as_u64) else { return false };
             let cfgs = c13_configs();
-            let Some(cfgt) = cfgs.get(ci as usize).copied() else { return false };
+            let Some(cfgt) = cfgs.get((ci % cfgs.len() as u64) as usize).copied() else { return false };
             let before = vh::thread_violations();
             let r = ev::guarded(|| c13_case(&ctx, ci, cfgt, &mut st));
             ev::add_evals(1);
